@@ -24,7 +24,7 @@ TRUSTED_BASE = [
     "axioms of every property theorem ⊆ {propext, Classical.choice, Quot.sound} (printed by Rbacx/Audit.lean on every run)",
     "hand-written model lean/Rbacx/Model/*.lean, tied to /repo by the correspondence harness (differential, this run) and harness/extract.py",
     "oracles computed by the harness without calling rbacx: CPython str()/float()/datetime parsing, json, hashlib",
-    "where a check uses the source-to-Lean translation (C02, C03, C05, C07, C17): harness/pytolean.py and the meaning of Python's operations in "
+    "where a check uses the source-to-Lean translation (C02, C03, C04, C05, C07, C17): harness/pytolean.py and the meaning of Python's operations in "
     "lean/Rbacx/Model/PyLib.lean, both validated against CPython on every run (Run/SrcEval.lean, Run/SrcEvalFrag.lean, Run/SrcEvalTarget.lean, "
     "Run/SrcEvalObl.lean); "
     "for the translated obligation checker BasicObligationChecker.check (C07): EXTERNAL-FUNCTION PARAMETERS — _finite_number is not translated "
@@ -64,6 +64,26 @@ TRUSTED_BASE = [
     "PyOrdDict.lean on lists without a repeated key; `while …: popitem(last=False)` is fuel-bounded recursion with fuel len(d)+1 "
     "(proved sufficient: whilePopFirst_fuel); an instance of a dataclass no method ever assigns to is the record of its fields; "
     "by hand remain the RLock and thread interleavings (Model/CacheLock.lean) and __init__ (int(maxsize), the empty OrderedDict)",
+    "for the translated CONDITION EVALUATOR eval_condition / resolve / _ensure_numeric_strict / _ensure_str / _as_collection / _is_strict (C04, "
+    "C06; harness/pytolean_except.py on top of pytolean.py, lean/Rbacx/Model/PyExcept.lean, validated against the real functions on every C04 "
+    "run by Run/SrcEvalCond.lean, exception classes included) the trusted readings are: EXCEPTION-PASSING — a translated function returns "
+    "Except CondErr PyVal, .typeMismatch = ConditionTypeError, .raised cls = the builtin exception class cls; expressions are put into "
+    "A-normal form in CPython's left-to-right evaluation order and the first exception ends the computation; which operation raises what on "
+    "JSON-shaped values is PyExcept.lean's: x[k] (KeyError / IndexError / TypeError), `a, b = v` (TypeError when not iterable, ValueError "
+    "when not two items), x in y (TypeError for a non-container, a non-str in a str, an unhashable key), < <= > >= (floats, ints, strs, "
+    "datetimes of equal awareness; int against float and list against list are NOT represented and would show up as the class "
+    "NotRepresented in the differential run; other kinds TypeError), d.get on a non-dict (AttributeError), len / list / float (OverflowError "
+    "for an int beyond the doubles: Float.ofInt rounds to ±inf exactly then; float(<str>) is NOT represented), s.split / startswith / "
+    "endswith on a non-str (AttributeError); ==, !=, isinstance, bool, not, str never raise; all()/any() over a generator go left to right "
+    "with short-circuit and propagate exceptions; try/except catches by class name (Exception catches everything; no other base classes); "
+    "a for loop that carries one variable is a left fold; recursion gets a budget `fuel` (0 = OutOfFuel) and the obligation proves that any "
+    "budget above the size of the document suffices and that the budget never changes an answer; EXTERNALS — function parameters, not "
+    "translated: getattr (the fallback of resolve on a non-dict; the obligation instantiates it with 'attribute absent', DESIGN §2.1 ii), "
+    "_parse_dt (datetime parsing; instantiated with the model's parseDt through the oracle, instants as aware datetimes), and rel_branch = "
+    "the statement `if 'rel' in cond: …` of eval_condition (ContextVars, relationship checker, memo: hand-modelled, instantiated with the "
+    "model's evalRel) — for these three the equalities speak about the source with the model's function in their place and what ties them "
+    "to CPython is the differential run alone (the evaluator gets the real Python's values per input line); the designation of the two "
+    "statement ranges (rel branch; the fifteen operator branches = Src.eval_binops) by the text of their `if` tests",
 ]
 
 
